@@ -1,6 +1,7 @@
 package qrcode
 
 import (
+	"math"
 	"strconv"
 
 	"github.com/makiuchi-d/gozxing"
@@ -93,6 +94,10 @@ func renderResult(code *encoder.QRCode, width, height, quietZone int) (*gozxing.
 	}
 	inputWidth := input.GetWidth()
 	inputHeight := input.GetHeight()
+	// a margin so large that symbol + 2*margin wraps round would give a blank or clipped image without an error
+	if quietZone > (math.MaxInt-inputWidth)/2 || quietZone > (math.MaxInt-inputHeight)/2 {
+		return nil, gozxing.NewWriterException("IllegalArgumentException: invalid margin %d", quietZone)
+	}
 	qrWidth := inputWidth + (quietZone * 2)
 	qrHeight := inputHeight + (quietZone * 2)
 	outputWidth := qrWidth
